@@ -391,6 +391,16 @@ Hand(x) ==
     /\ UNCHANGED <<pc, att, isNew, cur, ctxDone, res, mydial, chistVars, health, closed, once, waiting, srvq, owe,
                    rmsg, rw, tVars, dialVars, panic>>
 
+\* C01: a message arrives although no query is outstanding on an idle pooled connection (enabled by "surplus" \in Kinds).
+\* readLoop finds no waiter and closes the connection ("unexpected response").
+Surplus(x) ==
+    /\ Calm
+    /\ "surplus" \in Kinds /\ rpc[x] = "reading" /\ ~closed[x] /\ health[x] = "ok" /\ srvq[x] = None /\ x \in idle
+    /\ rmsg' = [rmsg EXCEPT ![x] = <<0, 0>>]
+    /\ rpc' = [rpc EXCEPT ![x] = "got"]
+    /\ H([a |-> "ReadRet", x |-> x, k |-> "surplus"])
+    /\ UNCHANGED <<callVars, chistVars, connVars, rw, tVars, dialVars, panic>>
+
 \* k: "err" (EOF, reset, short frame, garbage length ...) needs a dead peer or a locally closed conn;
 \*    "timeout" needs an armed deadline (virtual time: any armed deadline may expire)
 ReadFail(x, k) ==
@@ -554,8 +564,8 @@ CodeStep ==
 \* steps of the environment: the controller of the harness performs them
 EnvStep ==
     \/ \E c \in Calls : Start(c) \/ WriteOk(c) \/ WriteErr(c) \/ Cancel(c)
-    \/ \E x \in ConnIds : ServerReply(x) \/ ReadEnds(x) \/ DialRet(x)
-    \/ \E x \in ConnIds, k \in Kinds : Kill(x, k)
+    \/ \E x \in ConnIds : ServerReply(x) \/ ReadEnds(x) \/ DialRet(x) \/ Surplus(x)
+    \/ \E x \in ConnIds, k \in Kinds \ {"surplus"} : Kill(x, k)
     \/ TCloseStart
 
 Next == CodeStep \/ (EnvStep /\ (Eager => ~ENABLED CodeStep))
